@@ -113,7 +113,7 @@ def run_translator():
 
 # which regenerated table a property's theorems are stated against
 TABLE_OF = {"C04": ["tokeniser", "identifier"], "C05": ["tokeniser"], "C07": ["identifier", "solver_aho"], "C15": ["identifier"],
-            "C06": ["solver_loops"], "C17": ["solver_loops"], "C08": ["solver_aho"], "C09": ["solver_cmp", "parser_num_arms"]}
+            "C06": ["solver_loops"], "C17": ["solver_loops"], "C08": ["solver_aho", "solver_loops"], "C09": ["solver_cmp", "parser_num_arms"]}
 
 
 def gen_coqproject():
